@@ -174,3 +174,59 @@ Qed.
 Theorem ignore_propagates : forall s meth c ign e,
   filter_args_model s [] meth c = Raise e -> filter_args_model s ign meth c = Raise e.
 Proof. intros s meth c ign e H. rewrite ignore_factor, H. reflexivity. Qed.
+
+(* ------------------------------------------------------------------ ignored entries do not influence the result *)
+(* two result dicts with the same keys that differ at most under ignored keys *)
+Definition agree_outside (ign : list key) (d1 d2 : adict) : Prop :=
+  Forall2 (fun e1 e2 => fst e1 = fst e2 /\ (In (fst e1) ign \/ snd e1 = snd e2)) d1 d2.
+
+Lemma agree_outside_keys ign d1 d2 : agree_outside ign d1 d2 -> map fst d1 = map fst d2.
+Proof. induction 1 as [|e1 e2 d1 d2 [E _] _ IH]; [reflexivity|]. cbn [map]. rewrite E, IH. reflexivity. Qed.
+
+Lemma agree_outside_filter ign d1 d2 : agree_outside ign d1 d2 ->
+  filter (fun kv => negb (key_mem (fst kv) ign)) d1 = filter (fun kv => negb (key_mem (fst kv) ign)) d2.
+Proof.
+  induction 1 as [|[k1 v1] [k2 v2] d1 d2 [E H] _ IH]; [reflexivity|]. cbn [fst snd] in *. subst k2. cbn [filter fst].
+  destruct (key_mem k1 ign) eqn:Em; cbn [negb]; [exact IH|]. destruct H as [H | ->].
+  - apply key_mem_In in H. congruence.
+  - rewrite IH. reflexivity.
+Qed.
+
+Lemma agree_outside_app ign a1 a2 b1 b2 :
+  agree_outside ign a1 a2 -> agree_outside ign b1 b2 -> agree_outside ign (a1 ++ b1) (a2 ++ b2).
+Proof. apply Forall2_app. Qed.
+
+Lemma forallb_ext_all {A} (f g : A -> bool) l : (forall x, f x = g x) -> forallb f l = forallb g l.
+Proof. intros H. induction l as [|x t IH]; [reflexivity|]. cbn [forallb]. rewrite H, IH. reflexivity. Qed.
+
+Theorem ignore_noninterference : forall s meth c1 c2 ign d1 d2,
+  filter_args_model s [] meth c1 = Ok d1 -> filter_args_model s [] meth c2 = Ok d2 ->
+  agree_outside ign d1 d2 ->
+  filter_args_model s ign meth c1 = filter_args_model s ign meth c2.
+Proof.
+  intros s meth c1 c2 ign d1 d2 H1 H2 Ha. rewrite (ignore_factor s ign meth c1), (ignore_factor s ign meth c2), H1, H2.
+  cbn [bind]. rewrite !ignore_loop_spec by (eapply model_nodup_keys; eassumption).
+  rewrite (agree_outside_filter _ _ _ Ha).
+  assert (E : forallb (fun k => dmem k d1) ign = forallb (fun k => dmem k d2) ign).
+  { apply forallb_ext_all. intros k. unfold dmem.
+    destruct (dget k d1) eqn:E1, (dget k d2) eqn:E2; try reflexivity; exfalso.
+    - apply dget_In in E1. assert (dmem k d2 = true) by (apply dmem_In; rewrite <- (agree_outside_keys _ _ _ Ha);
+        change k with (fst (k, a)); apply in_map; exact E1). unfold dmem in H. rewrite E2 in H. discriminate.
+    - apply dget_In in E2. assert (dmem k d1 = true) by (apply dmem_In; rewrite (agree_outside_keys _ _ _ Ha);
+        change k with (fst (k, a)); apply in_map; exact E2). unfold dmem in H. rewrite E1 in H. discriminate. }
+  rewrite E. reflexivity.
+Qed.
+
+(* and nothing else is lost: equal results with an ignore list means equal non-ignored entries *)
+Theorem ignore_preserves_rest : forall s meth c1 c2 ign d1 d2 r,
+  filter_args_model s [] meth c1 = Ok d1 -> filter_args_model s [] meth c2 = Ok d2 ->
+  filter_args_model s ign meth c1 = Ok r -> filter_args_model s ign meth c2 = Ok r ->
+  forall k v, ~ In k ign -> (In (k, v) d1 <-> In (k, v) d2).
+Proof.
+  intros s meth c1 c2 ign d1 d2 r H1 H2 R1 R2 k v Hk.
+  destruct (ignore_exactly _ _ _ _ _ _ H1 R1) as (_ & _ & _ & X1).
+  destruct (ignore_exactly _ _ _ _ _ _ H2 R2) as (_ & _ & _ & X2).
+  split; intros Hin.
+  - apply (X2 k v). apply (X1 k v). split; assumption.
+  - apply (X1 k v). apply (X2 k v). split; assumption.
+Qed.
